@@ -227,6 +227,41 @@ let run_case_inner (a : string array) : string =
       Printf.sprintf "%s %s %s %s" (match c.zk with ZU -> "U" | ZS -> "S" | ZR -> "R")
         (string_of_z (cl c.zpre)) (string_of_z (cl c.ztrans)) (string_of_z (cl c.zpost))) in
     out m s false
+  | "nameres" ->
+    (* nameres <tzdir hex|NONE> <tz hex|NONE> <localtime hex|NONE> <name hex|LOCAL> ; fs table in $VERIF_FS *)
+    let fs_tab : (string, z list option) Hashtbl.t = Hashtbl.create 64 in
+    (match Sys.getenv_opt "VERIF_FS" with
+     | Some p ->
+       let ic = open_in p in
+       (try while true do
+         let line = input_line ic in
+         (match String.split_on_char ' ' line with
+          | [k; "NONE"] -> Hashtbl.replace fs_tab k None
+          | [k; v] -> Hashtbl.replace fs_tab k (Some (bytes_of_hex v))
+          | _ -> ())
+       done with End_of_file -> ()); close_in ic
+     | None -> ());
+    let missing = ref false in
+    let fs (path : z list) : z list option =
+      match Hashtbl.find_opt fs_tab (hex_of_bytes path) with
+      | Some r -> r
+      | None -> missing := true; None in
+    let opt s = if s = "NONE" then None else Some (bytes_of_hex s) in
+    let e = { e_tzdir = opt a.(1); e_tz = opt a.(2); e_localtime = opt a.(3) } in
+    let name = if a.(4) = "LOCAL" then local_zone_name e else bytes_of_hex a.(4) in
+    let r = load_time_zone fs e name in
+    let probe = z_of_string "1700000000" in
+    let m = (match r with
+      | Err er -> "ERR:" ^ string_of_err er
+      | OK ((ok, nm), k) ->
+        let (utc, off) = (match k with
+          | KUtc -> (true, "0")
+          | KFixed o -> (false, string_of_z o)
+          | KLibc -> (false, "?libc")
+          | KInfo z -> (false, (match break_time z Z0 probe with OK (al, _) -> string_of_z al.al_off | Err er -> "ERR:" ^ string_of_err er))) in
+        let okflag = if a.(4) = "LOCAL" then not utc else ok in
+        Printf.sprintf "ok=%s name=%s utc=%s off=%s" (b2s okflag) (hex_of_bytes nm) (b2s utc) off) in
+    if !missing then out ("fs-not-measured " ^ m) m false else out m m true
   | "sched" | "sched20" ->
     (* C13/C20: a schedule of Start/Release events; names as in the thread harness *)
     load_table ();
